@@ -7,7 +7,7 @@ def judge(run, trace_path, label):
     """CollectionsTrace judges a recorded trace; returns number of events consumed."""
     import shutil
     shutil.copy(trace_path, run.spec_path("c13_trace.ndjson"))
-    r = run.tlc_eval("CollectionsTrace", "c13_trace", timeout=1200)
+    r = run.tlc_eval("CollectionsTrace", "c13_trace", timeout=3600)
     out = r.json_lines()
     if not out:
         raise vlib.Infra("CollectionsTrace produced no verdict line:\n" + r.out[-2000:])
@@ -40,7 +40,7 @@ def check(run):
     # M: exhaustive check of the design
     run.tlc_model("Collections", "c13_model", workers=4, consts={"Ids": ids})
     # G: every transition of the machine replayed on the real containers
-    g = run.tlc_eval("CollectionsGen", "c13_gen", consts={"Ids": ids}, timeout=1200)
+    g = run.tlc_eval("CollectionsGen", "c13_gen", consts={"Ids": ids}, timeout=3600)
     cases = run.spec_path("c13_cases.ndjson")
     ncases = sum(1 for _ in open(cases))
     run.vh(["c13-replay", cases, run.path("g_trace.ndjson")])
